@@ -186,6 +186,20 @@ def guardName (dest n : Str) : Except Out Str :=
   | none => .error .err
   | some r => if r = dotdot ∨ hasPrefix r dotdotSlash = true then .error .breakout else .ok p
 
+/-- `overlayWhiteoutConverter.ConvertRead(hdr, path)`: `some true` = write the entry as usual,
+    `some false` = converted (opaque xattr set on the directory / whiteout device created), `none` = error -/
+def convertReadP (p : Str) (e : Entry) : Prog (Option Bool) :=
+  let b := base p
+  let d := dir p
+  if b = whOpaqueDir then
+    .call (.setxattr d opaqueKey [121] true) (fun r => if isErr r then .ret none else .ret (some false))
+  else if hasPrefix b whPrefix then
+    let orig := join d (b.drop whPrefix.length)
+    .call (.mknod orig .chr 0 (0, 0)) (fun r =>
+      if isErr r then .ret none
+      else .call (.chown orig e.uid e.gid true) (fun c => if isErr c then .ret none else .ret (some false)))
+  else .ret (some true)
+
 /-- what `Unpack` does about an existing object at the entry's path:
     0 merge / nothing there, 1 conflict error, 2 skip the entry, 3 remove it first -/
 def actOf (o : Opts) (l : Res) (e : Entry) (n : Str) : Nat :=
@@ -223,6 +237,12 @@ def unpackLoop (dest : Str) (o : Opts) : List Entry → List Entry → Prog Out
           match remapE o e with
           | none => return .err
           | some e' =>
+            -- overlayWhiteoutConverter.ConvertRead
+            let conv ← (if o.overlay then convertReadP p e' else pure (some true))
+            match conv with
+            | none => return .err
+            | some false => unpackLoop dest o es dirs        -- the whiteout file itself is not written
+            | some true =>
             let out ← createTarFileP p dest e' o
             if out != .ok then return out
             unpackLoop dest o es (if e.typ == .dir then { e' with name := n } :: dirs else dirs)
